@@ -34,7 +34,7 @@ def _setconf(thr):
 
 
 @factory
-def covers(w, r1, r2, r3, cond, widening, threshold):
+def covers(w, r1, r2, r3, cond, widening, threshold, identity=False):
     """m1: a <- r1 ; c <- r3      m2: a <- r2        (c written by m1 only, d by neither)
     cond: None | 'eq0' : m1 holds under (b == 0), m2 under (b != 0)"""
     r1, r2, r3 = T._tup(r1), T._tup(r2), T._tup(r3)
@@ -53,7 +53,12 @@ def covers(w, r1, r2, r3, cond, widening, threshold):
         env.val("b")
         m1, m2 = mapper(), mapper()
         g = E.reg("rg", T.rwidth(r1, w))
-        m1[a] = e1
+        if identity:
+            # the first map writes the register back to its initial value
+            m1[a] = a
+            v1 = None
+        else:
+            m1[a] = e1
         m1[c] = e3
         m2[a] = e2
         m2[g] = e1          # written by the second map only
@@ -94,19 +99,19 @@ def covers(w, r1, r2, r3, cond, widening, threshold):
         c2 = (rho["b"] != 0) if cond == "eq0" else True
         ga = mm[a]
         post["C19 width of merged value"] = (ga.size == a.size)
-        member("value of a in the first map", ga, v1, c1)
+        member("value of a in the first map", ga, v1 if v1 is not None else rho["ra"], c1)
         member("value of a in the second map", ga, v2, c2)
         gc = mm[c]
         member("value of c in the first map", gc, v3, c1)
         member("value of c (untouched) in the second map", gc, rho["rc"], c2)
         gg = mm[g]
         member("value of g (untouched) in the first map", gg, rho["rg"], c1)
-        member("value of g in the second map", gg, v1, c2)
+        member("value of g in the second map", gg, T.ref(r1, env, []), c2)
         gd = mm[d]
         post["C19 a location written by neither map is left untouched"] = bool(gd._is_reg and gd.ref == "rd")
         return post
     wmax = max(T.rmaxwidth(r, w) for r in (r1, r2, r3))
-    oid = "G/%s|%s|%s/w=%d/%s%s%s" % (T.show(r1), T.show(r2), T.show(r3), w, cond or "nocond", "/widening" if widening else "", "/thr=%d" % threshold if threshold else "")
+    oid = "G/%s|%s|%s/w=%d/%s%s%s" % (T.show(r1), T.show(r2), T.show(r3), w, cond or "nocond", "/widening" if widening else "", "/thr=%d" % threshold if threshold else "") + ("/identity" if identity else "")
     mode = "bv"
     for r in (r1, r2, r3):
         if T.choose_mode(r, w) != "bv":
@@ -135,7 +140,7 @@ def obligations(prop, tier, seed):
             cond = rng.choice((None, None, "eq0"))
             widening = rng.random() < 0.2
             thr = rng.choice((0, 0, 0, 4, 16))
-            o = covers(w=w, r1=r1, r2=r2, r3=r3, cond=cond, widening=widening, threshold=thr)
+            o = covers(w=w, r1=r1, r2=r2, r3=r3, cond=cond, widening=widening, threshold=thr, identity=(rng.random() < 0.15))
             if not o.skip:
                 obs.append(o)
     seen = set()
